@@ -436,7 +436,68 @@ def escapes(rep, lib):
               "(ranges %s)" % rng, s3.where())
     else:
         r.ok("escape[u]#four", "for _ in 0..4 { chr = (chr << 4) | d }", s3.where())
+    _escape_value(r, b, s1, s3, nexts)
     return decoded
+
+
+def _escape_value(r, b, s1, s3, nexts):
+    """What happens to the 16-bit value once its four digits are read: for every scalar value that is not a surrogate
+    the character with exactly that code point is appended and nothing more is consumed."""
+    # the accumulator: the destination of the `|` in the digit loop
+    hl = [(h, blocks) for h, blocks in b.loops().items() if s3.bb in blocks]
+    if not hl:
+        return
+    h, blocks = min(hl, key=lambda x: len(x[1]))
+    acc = None
+    for bb, idx, place, rv, _ in b.assignments():
+        if bb in blocks and rv["k"] == "binop" and rv["op"] == "BitOr" and not place["p"]:
+            acc = place["l"]
+            # the value is usually copied into the user variable right away
+            for st in b.stmts(bb)[idx + 1:]:
+                if st["k"] == "assign" and st["rv"]["k"] == "use" and st["rv"]["op"].get("k") in ("move", "copy") \
+                        and st["rv"]["op"]["place"]["l"] == acc and not st["place"]["p"]:
+                    acc = st["place"]["l"]
+    exits = sorted({t for x in blocks for t in b.succ(x) if t not in blocks and not b.blocks[t]["cleanup"]})
+    # the regular exit is the one taken when the 0..4 range is exhausted: successor of the header's decision
+    reg = [t for t in exits if any(t in b.succ(x) for x in blocks if b.dominates(x, s3.bb) or x == h)]
+    if acc is None or not reg:
+        r.bad("escape[u]#value", "cannot find the accumulated value / the exit of the digit loop (unrecognised idiom)",
+              s3.where())
+        return
+    outer = [hh for hh, bl in b.loops().items() if s1.bb in bl and hh != h]
+    reps = [0x41, 0xFF, 0x7FF, 0x800, 0x2028, 0xD7FF, 0xE000, 0xF900, 0xFDD0, 0xFFFD, 0xFFFF]
+    bad = []
+    for V in reps:
+        seen_from = []
+        problems = []
+
+        def model(c, av, envv, pe):
+            n = c.name or ""
+            if n.endswith("from_u32"):
+                seen_from.append(pe._deref_all(envv, av[0]) if av else None)
+                return None
+            if is_next(c) or is_peek(c):
+                problems.append("another byte is read (%s)" % n.rsplit("::", 1)[-1])
+                return (True, None)
+            return None
+        for start in reg:
+            try:
+                res = PE(b, model, max_states=20000).run(start=start, env={acc: ("i", V)}, stop=set(outer) | {s1.bb})
+            except RuntimeError:
+                problems.append("not evaluated (state budget)")
+                continue
+            if any(x is not None and x[0] == "adt" and x[1] == 1 for _, x in res.returns):
+                problems.append("the escape is rejected")
+        if not seen_from or any(v != ("i", V) for v in seen_from):
+            problems.append("char::from_u32 receives %s, not the value itself" % (seen_from or "nothing"))
+        if problems:
+            bad.append("\\u%04X: %s" % (V, problems[0]))
+    if bad:
+        r.bad("escape[u]#value", "%s (%d of %d representative non-surrogate values)" % (bad[0], len(bad), len(reps)),
+              s3.where())
+    else:
+        r.ok("escape[u]#value", "%d representative non-surrogate values: char::from_u32(value) appended, nothing more "
+             "read" % len(reps), s3.where())
 
 
 # ------------------------------------------------------------------ C01-WS-STRUCT
@@ -527,3 +588,56 @@ def resync(rep, lib):
             r.bad("read_reserved_word#after-error", "a byte is consumed after the mismatch was detected", after[0].where())
         else:
             r.ok("read_reserved_word#after-error", "nothing consumed after the mismatch", b.where(bb))
+
+
+# ------------------------------------------------------------------ C01-INPUT-DECIDES
+
+def input_decides(rep, lib):
+    """A value is rejected only because of its own bytes."""
+    from lib.prov import Prov
+    r = rep.rule("C01-INPUT-DECIDES", "every JsonParserError constructed in the JSON reader is decided by the input "
+                 "bytes alone: no branch on the way to constructing one tests a parameter or the reader's own fields "
+                 "(a depth counter, a mode flag, a count of values read so far) - otherwise a well-formed value can be "
+                 "rejected, or the same bytes accepted in one place and rejected in another", floor=15,
+                 analysis="control dependence (dominating switch terminators) + A4 provenance of each discriminant")
+    names = [n for n in lib.bodies if (n.startswith("<reader::Reader<R> as json_parser::JsonParser") or
+                                       n.startswith("reader::Reader::<R>::")) and "{closure" not in n]
+    if not names:
+        r.missing("the JSON reader's functions (impl JsonParser / JsonParserUtils for Reader)")
+        return r
+    for n in sorted(names):
+        b = lib.bodies[n]
+        sites = [(bb, rv.get("variant_name") or "?") for bb, idx, place, rv, _ in b.assignments()
+                 if rv["k"] == "agg" and rv.get("adt") == "json_parser::JsonParserError"]
+        sites += [(c.bb, "create_unexpected_character") for c in b.calls
+                  if (c.name or "").endswith("json_parser::create_unexpected_character")]
+        if not sites:
+            continue
+        pr = Prov(b, common.LOOK)
+        idom = b.idom()
+        seen = {}
+        for bb, what in sites:
+            k = seen.get(what, 0)
+            seen[what] = k + 1
+            key = "%s#%s[%d]" % (n.rsplit("::", 1)[-1], what, k)
+            bad = None
+            x = bb
+            guard = 0
+            while x is not None and x != 0 and guard < 10000:
+                guard += 1
+                x = idom[x]
+                if x is None:
+                    break
+                t = b.term(x)
+                if t["k"] != "switch":
+                    continue
+                at = pr.origins_at(t["discr"], x, len(b.stmts(x)))
+                args = sorted(str(a) for a in at if a[0] == "arg")
+                if args:
+                    bad = (x, args)
+            if bad:
+                r.bad(key, "this error is built under a test of %s (not of a byte read from the input): the reader can "
+                      "reject a value because of its own state" % bad[1][:2], b.where(bb))
+            else:
+                r.ok(key, "decided by bytes read", b.where(bb), nontrivial=False)
+    return r
